@@ -25,6 +25,33 @@ CHECKS = {
                 'value oracle (number model) and first-wins unit binding; Hypothesis amounts for every main/fraction currency pair. Finite tables are '
                 'enumerated completely (exhaustive), the compound amounts are sampled.',
         'note': NOTE, 'technique': 'exhaustive enumeration of finite tables + differential oracle; Hypothesis for compound currency amounts'},
+    'C06': {
+        'text': 'Dates 1900-2099 written by the harness in every layout of the culture (16 English layouts, day-first numeric and month-name layouts '
+                'for es/fr/pt/it/de/nl, ISO and CJK layouts for zh) under two references each (metamorphic: result independent of the reference), '
+                'with a deterministic part for leap days, month ends and swap-sensitive days; oracle = the date itself.',
+        'note': NOTE, 'technique': 'property-based testing: Hypothesis date/layout/reference generators + exact-value oracle + metamorphic reference independence'},
+    'C07': {
+        'text': 'Exhaustive 24x60 HH:MM grid and every 12-hour spelling, Hypothesis HH:MM:SS and date+time compositions (absolute, today/tomorrow/'
+                'yesterday, next/this/last weekday) under generated references; oracle = set of readings demanded by the statement.',
+        'note': NOTE, 'technique': 'exhaustive grid + Hypothesis compositions against a readings oracle'},
+    'C08': {
+        'text': 'Reference datetimes (Hypothesis + explicit boundary pool, also enumerated) x all expression families of the statement x N up to 5000; '
+                'oracle = stdlib datetime/timedelta/isocalendar arithmetic on the reference.',
+        'note': NOTE, 'technique': 'property-based testing: Hypothesis references/families + stdlib calendar-arithmetic oracle'},
+    'C09': {
+        'text': 'All 366 month-day pairs and the weekday names with references forced next to the stated day (before/on/after, leap and non-leap years, '
+                'midnight and daytime); oracle = 10-line occurrence search over years.',
+        'note': NOTE, 'technique': 'enumeration of forced reference relations + Hypothesis, occurrence-search oracle'},
+    'C10': {
+        'text': 'Durations for N up to 5000 in seven units, generated from..to / between..and ranges over dates, clock times (incl. overnight, noon, '
+                'midnight) and date-times under generated references, and every (start,end,duration) triple produced on the supported Specs inputs; '
+                'oracle = own ISO-8601 duration arithmetic.',
+        'note': NOTE, 'technique': 'property-based testing: Hypothesis range generators + triple-arithmetic oracle; exhaustive corpus clause'},
+    'C11': {
+        'text': 'Shape oracle (stdlib date/time validity, TIMEX/value agreement, type-name agreement, min-value sentinel) applied to every entity produced '
+                'on the Specs corpus under spec and generated references, on the generated expressions of C06-C10, on an invalid-date family and on '
+                'bare-hour ranges.',
+        'note': NOTE, 'technique': 'property-based testing: validity predicate over outputs of corpus + generated inputs'},
     'C13': {
         'text': 'Exhaustive boundary-octet IPv4 grid and per-position 0..255 sweep, Hypothesis over 2^32 / 2^128 / GUID layouts with own writers, '
                 'near-miss invalid addresses (soundness via stdlib ipaddress), grammar-generated e-mail/URL/hashtag/mention/phone literals.',
